@@ -114,6 +114,11 @@ def check_e2e(ctx, lines, why, sync=("0 = TS 4", "0 = B 1000000000")):
     ctx.case(("e2e", text), sample=lambda: dict(events_body=lines, why=why))
     ctx.evaluations += 1
     e1.check_model(ctx, "classification-end-to-end", text, res, msg="%s: [Events] body %r" % (why, lines))
+    if not text.isascii() and len(text) < 4000:
+        # non-ASCII text also through the by-path entry points (decoding / "cleaning" happens there)
+        for via in ("path", "path-bom"):
+            ctx.evaluations += 1
+            e1.check_model(ctx, "classification-end-to-end", text, res, via=via, msg="%s (entry point %s): [Events] body %r" % (why, via, lines))
 
 
 def run_shard(shard, ctx):
@@ -237,6 +242,14 @@ def _orders(ctx):
             line = '7 = E "%s"' % t
             check_line(ctx, _order(), line, "special character(s) %s" % ascii(sp))
             check_e2e(ctx, [pool[0], line, pool[2]], "special character(s) %s" % ascii(sp))
+    # the keywords are 'lyric ' and 'section ' exactly: any other letter case (or a letter that only case-folds to
+    # them) is ordinary text, and so is the marker 'e' for 'E'
+    for t in ("Lyric x", "LYRIC x", "lYRIC x", "Section x", "SECTION x", "sEcTiOn x", "\u017fection x", "lyr\u0131c x", "LYR\u0130C x", "Lyric", "SECTION", "Lyric  two", "lyric X", "section X Y"):
+        line = '7 = E "%s"' % t
+        check_line(ctx, _order(), line, "keyword in another letter case")
+        check_e2e(ctx, [pool[0], line, pool[1], pool[2]], "keyword in another letter case")
+    for line in ('7 = e "x"', '7 = e "lyric x"', '7 = E "x"'.lower(), '7 = E "SECTION x"'.swapcase()):
+        check_e2e(ctx, [pool[0], line, pool[2]], "lower-case event marker (not an event line)")
     sync = ("0 = TS 4", "0 = B 120000", "3 = B 60000", "5 = B 200000")
     for n in (2, 3):
         for idx in itertools.combinations(range(6), n):
